@@ -1,0 +1,14 @@
+//go:build verif
+
+package bondmachine
+
+// VerifYieldHook, when set, is called by every processor worker right before it executes its
+// step of the current tick. Verification harnesses use it to force a chosen execution order of
+// the workers. It exists only in builds with the "verif" tag.
+var VerifYieldHook func(procId int)
+
+func verifYield(procId int) {
+	if h := VerifYieldHook; h != nil {
+		h(procId)
+	}
+}
